@@ -9,6 +9,7 @@ HARNESS_DIR = os.path.join(ROOT, "harness")
 HARNESS_BIN = os.path.join(HARNESS_DIR, "target", "release", "suiron-verif-harness")
 KNOWN = os.path.join(ROOT, "known_findings.json")
 TLC_WORKERS = os.environ.get("VERIF_TLC_WORKERS", "10")
+CURRENT_TIER = ["quick"]
 
 
 class ToolError(Exception):
@@ -125,7 +126,7 @@ def run_tlc(job, tier, seed, wd, extra_env=None):
 def run_harness(cases_path, wd, mode="replay"):
     res = os.path.join(wd, "results.ndjson")
     t0 = time.time()
-    p = subprocess.run([HARNESS_BIN, mode, cases_path, res], cwd=wd,
+    p = subprocess.run([HARNESS_BIN, mode, cases_path, res], cwd=wd, env=dict(os.environ, VERIF_TIER=CURRENT_TIER[0]),
                        stdout=subprocess.PIPE, stderr=subprocess.PIPE, text=True)
     if p.returncode != 0:
         raise ToolError("harness %s failed (exit %d): %s" % (mode, p.returncode, p.stderr[-2000:]))
@@ -274,6 +275,7 @@ def do_replay(prop, path):
 
 
 def do_check(prop, tier, seed, t0):
+    CURRENT_TIER[0] = tier
     pdef = PROPS[prop]
     acc = dict(evaluations=0, kinds=collections.Counter(), paths=set(), actions=collections.Counter(),
                distinct=set(), samples=[], bad=[], excluded=collections.Counter())
